@@ -189,6 +189,6 @@ func genPayload(rng *rand.Rand, max int) []byte {
 var badBinCounter atomic.Uint64
 
 func badBinValue() string {
-	vals := []string{"!!", "A", "AAAAA", "=", "AA=A", "*", "AAA", "AAAAAAAAA", "A===", "AAAAAA"}
+	vals := []string{"!!", "A", "AAAAA", "=", "AA=A", "*", "AAA", "AAAAAAAAA", "A===", "AAAAAA", "QQ=", "QUJDRA=", "QQ=\n", "QQ", "QUI=="}
 	return vals[int(badBinCounter.Add(1))%len(vals)]
 }
